@@ -54,4 +54,19 @@ example : (opQ ⟨[([108], [76])], []⟩ .div
       ⟨[⟨[108], [109], 1⟩], false, [108], [76], [109]⟩ ⟨[⟨[108], [109], 1⟩], false, [108], [76], [109]⟩).map (·.entries)
         = .ok [] := by rfl
 
+/-! the caller edits the mapping it passed (seed C20-12's sequence): spec = {length: [m, 1], time: [s, -1]};
+velocity = ObtainQuantity(spec); spec['time'][1] = -2; acceleration = ObtainQuantity(spec); velocity ** 2 -/
+def exReg : Reg := ⟨[([108], [108]), ([116], [116])], [(([108], [109]), [77]), (([116], [115]), [83])]⟩
+def exSpec : Req := .dict [⟨[108], [109], 1⟩, ⟨[116], [115], -1⟩]
+def exRun : Caller := Caller.run exReg ⟨[], []⟩
+  [.request exSpec, .edit 0 (.setExp 1 (-2)), .again 0, .arith 0 (fun q => qpow exReg q 2)]
+-- velocity still is m/s, with unit name "M / S"; acceleration is m/s2; velocity ** 2 is m2/s2
+example : (exRun.made.map (fun r => r.toOption.map (·.unit)))
+    = [some [109, 47, 115], some [109, 47, 115, 50], some [109, 50, 47, 115, 50]] := by decide +kernel
+example : (exRun.made[0]?.bind (fun r => r.toOption.map (fun q => (q.unitName exReg).toOption)))
+    = some (some [77, 32, 47, 32, 83]) := by decide +kernel
+example : exRun.held = [.dict [⟨[108], [109], 1⟩, ⟨[116], [115], -2⟩]] := by decide +kernel
+example : (Edit.del 0).apply (.list [([109], 1), ([115], -1)] [[108], [116]]) = .list [([115], -1)] [[116]] := by decide
+example : (Edit.add ⟨[116], [104], 3⟩).apply exSpec = .dict [⟨[108], [109], 1⟩, ⟨[116], [104], 3⟩] := by decide
+
 end Barril.Str
